@@ -24,6 +24,10 @@ ClDb(r) ==
       names == <<"no-error", "length-is-min-N-nrefs", "ordered-by-distance-then-reference-order", "exact-distances",
                  "taxon-assigned-by-distance-alone", "first-entry-is-the-closest-match">>
   IN [c \in DOMAIN names |-> <<names[c], \A x \in DOMAIN r.runs : \A j \in DOMAIN per[x] : per[x][j] # names[c]>>]
+     \o << <<"json-export-lists-the-same-genomes-in-the-same-order", \A x \in DOMAIN r.runs :
+                r.runs[x].ok => r.runs[x].json = [i \in DOMAIN r.runs[x].list |-> r.runs[x].list[i].g]>>,
+            <<"csv-and-json-name-the-same-closest-genome", \A x \in DOMAIN r.runs :
+                (r.runs[x].ok /\ r.runs[x].json # <<>>) => r.runs[x].csv_g = r.runs[x].json[1] /\ r.runs[x].csv_g = r.runs[x].closest_g>> >>
 
 Clauses(r) == IF r.op = "db" THEN ClDb(r) ELSE ClItem(r)
 
